@@ -223,12 +223,16 @@ func newFixture(mode, impl string, limit int64) *fixture {
 	return newFixtureAt(dir, mode, impl, limit)
 }
 
+// cache size and max_size_hard_limit of the next fixture (the c17 slice changes them)
+var fxMaxSize int64 = maxSizeBytes
+var fxHardLimit int64
+
 // a cache + servers on an EXISTING directory (a restart, possibly under another storage mode)
 func newFixtureAt(dir, mode, impl string, limit int64) *fixture {
 	var err error
 	sl := log.New(io.Discard, "", 0)
-	c, err := disk.New(dir, maxSizeBytes, disk.WithAccessLogger(sl), disk.WithStorageMode(mode),
-		disk.WithZstdImplementation(impl), disk.WithMaxBlobSize(limit))
+	c, err := disk.New(dir, fxMaxSize, disk.WithAccessLogger(sl), disk.WithStorageMode(mode),
+		disk.WithZstdImplementation(impl), disk.WithMaxBlobSize(limit), disk.WithMaxSizeHardLimit(fxHardLimit))
 	if err != nil {
 		panic(err)
 	}
